@@ -454,6 +454,7 @@ func cmdCheck(args []string) int {
 	// bounded stand-ins of this property (never counted as proved; DESIGN §13.8)
 	var boundedEv []map[string]interface{}
 	if *only == "" {
+		boundedTier = tier
 		for _, tp := range boundedTemplates(*prop) {
 			br := runBounded(*prop, tp, filepath.Join(outDir, "bounded"))
 			ent := map[string]interface{}{"harness": "bounded/" + br.File, "package": br.Pkg, "bound": br.Bound, "explored": br.Summary, "seconds": round3(br.Seconds),
